@@ -244,6 +244,36 @@ func (a *advCtx) attack(d []byte, q uint64) {
 	m.CurrentVersion = 1 << 63
 	emit("current", m, d)
 
+	// --- version grid: the client checks against the snapshot it trusts for the version the answer
+	//     names, so every relabelled (query, actual) pair is verified against the authentic history
+	//     digest of *that* query version (all pairs with actual > query, a sample of the others)
+	for q2 := 0; q2 <= cur; q2++ {
+		for a2 := 0; a2 <= cur; a2++ {
+			if uint64(q2) == g.QueryVersion && uint64(a2) == g.ActualVersion {
+				continue
+			}
+			inCap := a2 > q2 && a2 <= 2*q2+1 // later than the query but inside the capacity of its tree
+			switch {
+			case uint64(a2) == g.ActualVersion && a2 > q2: // genuine path, query lowered below the insertion
+			case uint64(a2) == g.ActualVersion:
+				if rng.Intn(3) != 0 {
+					continue
+				}
+			case inCap:
+				if rng.Intn(4) != 0 {
+					continue
+				}
+			default:
+				if rng.Intn(16) != 0 {
+					continue
+				}
+			}
+			m = cloneMR(g)
+			m.QueryVersion, m.ActualVersion = uint64(q2), uint64(a2)
+			a.emitAdv("grid", m, d, q2, cur)
+		}
+	}
+
 	// --- another digest: proof for d presented for d2 (inserted or never inserted, incl. digests
 	//     sharing the whole prefix down to the shortcut leaf)
 	others := [][]byte{}
@@ -268,6 +298,11 @@ func (a *advCtx) attack(d []byte, q uint64) {
 			m3 := cloneMR(m)
 			m3.QueryVersion = g.ActualVersion - 1
 			emit("other_digest+query_below_actual", m3, d2)
+			for q2 := 0; q2 < int(g.ActualVersion) && q2 <= cur; q2++ {
+				m3 = cloneMR(m)
+				m3.QueryVersion = uint64(q2)
+				a.emitAdv("other_digest+query_below_actual@snap", m3, d2, q2, cur)
+			}
 		}
 		m4 := cloneMR(g) // key digest left as the original one
 		emit("other_digest_key_kept", m4, d2)
